@@ -45,7 +45,28 @@ fn uncovered_on(l: &[GTx], d: NaiveDate, tk: &str) -> bool {
 fn gen_hostile(r: &mut Rng, base: &Ledger) -> Ledger {
     let mut l = base.clone();
     if l.is_empty() { return l; }
-    match r.below(6) {
+    match r.below(7) {
+        5 => {
+            // several disposals on different days all identified with one later purchase, then a further
+            // sale before that purchase arrives (covered, or short by a few shares)
+            let tk = l[0].ticker.clone();
+            let d0 = l.iter().map(|t| t.date).max().unwrap_or(l[0].date) + Duration::days(40);
+            let h = Decimal::from(*r.pick(&[60i64, 100, 150]));
+            l.push(GTx::new(d0, &tk, Kind::Buy, h, Decimal::ONE, Decimal::ZERO));
+            let k = 2 + r.below(2) as i64;
+            let mut sold = Decimal::ZERO;
+            for i in 0..k {
+                let q = (h / Decimal::from(k + 1)).round_dp(0).max(Decimal::ONE);
+                sold += q;
+                l.push(GTx::new(d0 + Duration::days(30 + 2 * i), &tk, Kind::Sell, q, Decimal::TWO, Decimal::ZERO));
+            }
+            let back = d0 + Duration::days(30 + 2 * k + r.range(2, 10));
+            l.push(GTx::new(back, &tk, Kind::Buy, sold, Decimal::from(3), Decimal::ZERO));
+            let left = h - sold;
+            let extra = left + Decimal::from(*r.pick(&[-1i64, 0, 0, 1, 5, 20]));
+            if extra > Decimal::ZERO { l.push(GTx::new(d0 + Duration::days(30 + 2 * k + 1), &tk, Kind::Sell, extra, Decimal::TWO, Decimal::ZERO)); }
+            if r.chance(1, 2) { l.push(GTx::new(back + Duration::days(60), &tk, Kind::Sell, h + Decimal::from(*r.pick(&[0i64, 1, 30])), Decimal::TWO, Decimal::ZERO)); }
+        }
         4 => {
             // a day with a purchase and a larger sale than purchase + holding, repurchase within 30 days
             let tk = l[0].ticker.clone();
@@ -102,7 +123,7 @@ pub fn run(ctx: &mut Ctx) {
     cfg.oversell_pct = 8;
     let n = ctx.n(500, 30_000);
     let base_cases = matcher_cases(prop, ctx, &cfg, n);
-    ctx.ev.rule = "corpus + fixtures + generated ledgers without cost events, each also in a hostile variant (earliest purchases dropped; a sale row duplicated; sale + companion sale + repurchase within 30 days; sale straddling a split/unsplit; same-day purchase + sale larger than purchase + holding + repurchase within 30 days): the real calculate() accepts iff an independent cumulative-position check over the raw lines says every (date, security) is covered; a refusal names an uncovered security and the earliest uncovered date; the Lean model agrees on accept/reject, error kind, security and date. A sample of refused and accepted ledgers is also run through the real CLI (exit status, stdout, --output file). Non-trivial = uncovered ledgers, and covered ledgers containing a 30-day match; distinct by ledger text.".into();
+    ctx.ev.rule = "corpus + fixtures + generated ledgers without cost events, each also in a hostile variant (earliest purchases dropped; a sale row duplicated; sale + companion sale + repurchase within 30 days; sale straddling a split/unsplit; same-day purchase + sale larger than purchase + holding + repurchase within 30 days; several disposals on different days identified with one later purchase followed by a further sale before it arrives): the real calculate() accepts iff an independent cumulative-position check over the raw lines says every (date, security) is covered; a refusal names an uncovered security and the earliest uncovered date; the Lean model agrees on accept/reject, error kind, security and date. A sample of refused and accepted ledgers is also run through the real CLI (exit status, stdout, --output file). Non-trivial = uncovered ledgers, and covered ledgers containing a 30-day match; distinct by ledger text.".into();
     let ex = run_impl::wide_exemptions();
     let mut r = Rng::new(ctx.seed ^ 0xC05);
     let mut cli_budget: i64 = if ctx.tier == Tier::Quick { 24 } else { 300 };
